@@ -149,6 +149,15 @@ def check_get_score(ctx):
     for e in trace.stores(ev):
         old_ = e.get("old")
         oa = old_.as_atom() if isinstance(old_, Rat) else None
+        if e["root"] != CACHE and oa is not None and oa.func == "getitem" and len(oa.args) == 2 and isinstance(oa.args[0], Rat) and isinstance(oa.args[1], Rat) \
+                and len(e["indices"]) == 1:
+            # array[mask] = nan with array = cache[field], cache the element of a loop over the cache list
+            ia = oa.args[0].as_atom()
+            if ia is not None and ia.func.startswith("elem") and ia.args and isinstance(ia.args[0], Rat):
+                cs0 = _cache_seq(ia.args[0])
+                if cs0 is not None and cs0[2] is None:
+                    masks.append(dict(e, root=CACHE, indices=[Rat.sym("pos:" + ia.func), oa.args[1], e["indices"][0]]))
+                    continue
         if e["root"] == CACHE or oa is None or not oa.func.startswith("elem") or not (oa.args and isinstance(oa.args[0], Rat)):
             continue
         cs = _cache_seq(oa.args[0])
